@@ -195,6 +195,17 @@ def gen_inputs(ctx):
         for pl, key in ((6, 'Heat Pump Capital Cost'), (5, 'Absorption Chiller Capital Cost')):
             c = [(k, v) for k, v in configs.synthetic(rnd, enduse=2, plant=pl) if k not in (key, 'Surface Plant Capital Cost', 'Total Capital Cost')]
             cfgs.append(c + [(key, '0')])
+    # every user-fixable cost component supplied at its minimum (0): "exactly that figure is used", a supplied 0 is not "not provided"
+    for key in ('Well Drilling and Completion Capital Cost', 'Reservoir Stimulation Capital Cost', 'Surface Plant Capital Cost',
+                'Field Gathering System Capital Cost', 'Exploration Capital Cost', 'Wellfield O&M Cost', 'Surface Plant O&M Cost', 'Water Cost'):
+        for _ in range(ctx.n(1, 6)):
+            c = [(k, v) for k, v in configs.synthetic(rnd) if k not in (key, key + ' Adjustment Factor', 'Total Capital Cost', 'Total O&M Cost')]
+            cfgs.append(c + [(key, '0')])
+    for _ in range(ctx.n(2, 12)):   # district network cost supplied with the value that happens to be the declared default (10 M$)
+        c = [(k, v) for k, v in configs.synthetic(rnd, enduse=2, plant=7, resmodel=4, life=5)
+             if not k.startswith(('Total District', 'District Heating Network', 'District Heating Road', 'District Heating Land', 'District Heating Pop',
+                                  'Number of Housing', 'Total Capital'))]
+        cfgs.append(c + [('Total District Heating Network Cost', '10')])
     for _ in range(ctx.n(6, 60)):   # district heating: every way of obtaining the network cost
         cfgs.append(configs.synthetic(rnd, enduse=2, plant=7, resmodel=4, life=rnd.choice([5, 10, 20])))
     texts = [('synthetic', runner.params_to_text(c)) for c in cfgs]
